@@ -195,7 +195,9 @@ def replay_violation(plan, ob, tier):
     g = next(g for g in plan.kani if ob in g["harness"].values())
     h = next(k for k, v in g["harness"].items() if v is ob)
     logs = os.path.join(BUILD, "logs", plan.prop)
-    tests = vlib.kani_playback_values(g["package"], h, log=os.path.join(logs, "playback_%s.log" % h))
+    tests = plan.playback_cache.get(h)
+    if tests is None:
+        tests = vlib.kani_playback_values(g["package"], h, log=os.path.join(logs, "playback_%s.log" % h))
     if not tests:
         info["counterexample"] = None
         info["note"] = "kani produced no concrete values"
@@ -270,6 +272,22 @@ def main():
     rc = 0
     os.makedirs(os.path.join(VERIF, "replay"), exist_ok=True)
     confirmed = []
+    # counterexamples for all violated Kani obligations: one batched playback run per package
+    plan.playback_cache = {}
+    bypkg = {}
+    for o in violations:
+        if o.backend == "kani":
+            for g in plan.kani:
+                for h, ob in g["harness"].items():
+                    if ob is o:
+                        bypkg.setdefault(g["package"], []).append(h)
+    for pkg, hs in bypkg.items():
+        if len(hs) > 1:
+            try:
+                plan.playback_cache.update({h: t for h, t in vlib.kani_playback_batch(
+                    pkg, hs, log=os.path.join(BUILD, "logs", prop, "playback_batch_%s.log" % pkg)).items() if t})
+            except Exception as e:
+                print("MACHINERY: batched playback failed (%r); falling back to one run per harness" % (e,))
     for o in violations:
         info, has_input, reproduced = replay_violation(plan, o, tier)
         if has_input and not reproduced:
